@@ -151,8 +151,32 @@ class CCtx:
         self.mut.append((param, attr_, rel))
 
 
+@dataclass
+class Lemma:
+    name: str
+    fn: Callable[[Any], None]
+    props: Tuple[str, ...] = ()
+
+
+class LemmaCtx:
+    """A lemma over contracts / specification functions: a list of closed obligations."""
+
+    def __init__(self, ct, name: str, props: Tuple[str, ...]) -> None:
+        self.ct = ct
+        self.name = name
+        self.props = props
+        self.obligations: List[Obligation] = []
+
+    def oblige(self, name: str, assumptions: List[Any], goal: Any, inputs: Optional[Dict[str, Any]] = None,
+               meta: Optional[Dict[str, Any]] = None, text: str = "", kind: str = "lemma") -> None:
+        self.obligations.append(Obligation(name=f"{self.name}:{name}", kind=kind, assumptions=list(assumptions),
+                                           goal=goal, prop_ids=self.props, text=text or name,
+                                           inputs=dict(inputs or {}), meta=dict(meta or {})))
+
+
 class Registry:
     def __init__(self) -> None:
+        self.lemmas: Dict[str, Lemma] = {}
         self.contracts: Dict[Tuple[str, str], Contract] = {}
         self.accept: Dict[str, Contract] = {}
         self.transparent: set = set()
@@ -165,6 +189,12 @@ class Registry:
         def deco(fn):
             self.contracts[(relpath, qualname)] = Contract(relpath, qualname, fn, tuple(props), group,
                                                            trusted, note)
+            return fn
+        return deco
+
+    def lemma(self, name: str, props: Sequence[str] = ()):
+        def deco(fn):
+            self.lemmas[name] = Lemma(name, fn, tuple(props))
             return fn
         return deco
 
@@ -313,6 +343,7 @@ class Registry:
 
 REG = Registry()
 contract = REG.contract
+lemma = REG.lemma
 accept_contract = REG.accept_contract
 invariant = REG.invariant
 transparent = REG.mark_transparent
@@ -453,6 +484,12 @@ def verify_function(repo: Repo, ct: M.ClassTable, reg: Registry, con: Contract,
                 if match in ob.name and ob.kind != "cover":
                     ob.goal = z3.Or(formula, ob.goal)
                     ob.text += f" [outside known-finding region {rid_}]"
+    except NameError:
+        pass
+    try:
+        for ob in ex.obligations:
+            if not ob.meta:
+                ob.meta = dict(getattr(c, "meta", {}) or {})
     except NameError:
         pass
     fr.obligations = ex.obligations
